@@ -52,6 +52,7 @@ vf::CaseResult run_case(const std::string &id, const Program &prog, Stats &st) {
   }
   if (id == "C08" || id == "C09") I.allow_set = false;  // C10: set_edge only (weights), states "reachable as in C01"
   if (id == "C10") I.allow_selfloop = false;
+  if (id == "C09") I.allow_membrane = true;  // closed cells containing both halffaces of a face are in C09's quantifier
   PropBank bank(I);
   C05Ctx c05;
   C08Ctx c08;
